@@ -23,6 +23,7 @@ func (hc *histCheck) runCase(h *History) (r *histRunner, err error) {
 	o := hc.opts()
 	o.property = hc.property
 	r = newRunner(h, o)
+	markDriver()
 	defer func() {
 		if e := recover(); e != nil {
 			err = panicToError(e)
@@ -70,6 +71,11 @@ func (hc *histCheck) check(t *testing.T) {
 		for res, n := range r.reads {
 			if n > 0 {
 				r.label("read:" + res)
+			}
+		}
+		for id, n := range r.excluded {
+			for i := 0; i < n; i++ {
+				st.Exclude(id)
 			}
 		}
 		labels := r.sortedLabels()
